@@ -13,6 +13,7 @@ use std::task::ready;
 use std::task::Context;
 use std::task::Poll;
 use tokio::io::ReadBuf;
+use wtransport_proto::error::ErrorCode;
 use wtransport_proto::frame::Frame;
 use wtransport_proto::session::SessionRequest;
 use wtransport_proto::stream as stream_proto;
@@ -400,11 +401,20 @@ pub mod uniremote {
         }
 
         pub async fn upgrade(mut self) -> Result<StreamUniRemoteH3, ProtoReadError> {
-            let proto = self.proto.upgrade_async(&mut self.stream).await?;
-            Ok(StreamUniRemoteH3 {
-                stream: self.stream,
-                proto,
-            })
+            match self.proto.upgrade_async(&mut self.stream).await {
+                Ok(proto) => Ok(StreamUniRemoteH3 {
+                    stream: self.stream,
+                    proto,
+                }),
+                Err(error) => {
+                    if let ProtoReadError::H3(ErrorCode::StreamCreation) = error {
+                        // Unknown stream type: abort reading of this stream only.
+                        let _ = self.stream.stop(ErrorCode::StreamCreation.to_code());
+                    }
+
+                    Err(error)
+                }
+            }
         }
 
         #[inline(always)]
